@@ -30,6 +30,9 @@ CLAIMED['C03'] = dict(design='8/C03', technique='deductive verification: decoder
 CLAIMED['C10'] = dict(design='8/C10', technique='deductive verification: frame and freshness (provenance) obligations on the real codecs; z3/cvc5 plus object-identity checks of the symbolic heap',
    text='Decoders never write the input and store only freshly allocated memory (no aliasing with the input or pre-existing storage); encoders modify only the buffer and only append, for every pre-existing buffer content; both are given as functions of their arguments (determinism).',
    note='bytes.Buffer growth is modelled as reallocation. ' + TB_CODEC)
+CLAIMED['C05'] = dict(design='8/C05', technique='deductive verification: postconditions of the six dispatch functions over the dispatch table, generated codecs used through table-derived contracts (modular); z3/cvc5',
+   text='Proof over all 256 discriminator and 256 message-type values at both header offsets: nil/empty/short input, unknown discriminator and unknown type are errors; success allocates a fresh family message, copies the header, populates exactly the body named by the type octet whose own header octets equal the header view; encoding dispatches symmetrically, appends exactly ENC_T(body), and unknown type, absent family or absent body are errors.',
+   note='Codecs are used through contracts derived from spec/messages.json (their validity on the code is C04). ' + TB_CODEC)
 REASONS = {}
 checks = []
 for p in props:
